@@ -177,6 +177,8 @@ def decl_source(d, doc=False, derive_debug_enums=True, vis="pub "):
     if doc:
         out.append("/// the bitfield")
     out.append("#[bitbybit::bitfield(%s)]" % ", ".join(args))
+    for extra in d.get("struct_attrs", []):
+        out.append(extra)
     out.append("%sstruct %s {" % (vis, d["name"]))
     for k, f in enumerate(d["fields"]):
         # a doc comment may legally stand before or after the bit attribute: alternate
